@@ -1,4 +1,5 @@
 import Yaep.Lemmas.Earley
+import Yaep.Lemmas.EarleyLA
 /-!
 # C01 — the parse list: recognition
 
@@ -156,7 +157,8 @@ The direction "every position before the reported one is viable" needs every non
 be productive, which `WF` does not say (`yaep_read_grammar` checks it only in strict mode):
 with `S : A | 'a'`, `A : 'b' A` and input `b`, level 0 shifts `b` and reports token 1, although
 no sentence starts with `b`.  What holds for `WF` alone is the direction below, together with
-`buildPL_error_iff` (the reported token is the first one without a transition). -/
+`buildPL_error_iff` (the reported token is the first one without a transition).  With the
+productivity hypothesis the full statement is `firstError_iff_viable` at the end of this file. -/
 
 /-- At level 0, if token `k` is reported as the first error, then the prefix `w'[0..k]`
 (offending token included) cannot be continued to a sentence followed by the end marker. -/
@@ -175,5 +177,105 @@ theorem firstError_la0_partial {g : Grammar} {w : List Nat} {k : Nat} (hwf : g.W
     List.getElem?_take_of_lt (by omega)]
 
 example : c01Grammar.WF ∧ (buildPL c01Grammar 0 [2, 3, 3]).1 = some 2 := by decide
+
+/-! ## lookahead level 1 (static lookahead)
+
+yaep's level-1 test (`okItem` with the sets `laSet` built from FIRST and FOLLOW) never removes
+an item that lies on a derivation of the whole input, so levels 0 and 1 give the same verdict.
+`g.symsInRange` (symbol numbers below the table sizes) is what makes the fuel of the
+FIRST/FOLLOW fixpoints sufficient. -/
+
+/-- Completeness at level 1 (no hypothesis on the tokens is needed for this direction). -/
+theorem accepts_complete_la1 {g : Grammar} {w : List Nat} (hwf : g.WF)
+    (hsr : g.symsInRange = true) (hs : Sentence g w) : accepts g 1 w = true :=
+  (accepts_iff g 1 w).mpr (la1_of_der_axiom hwf hsr (der_axiom_of_sentence hs)).2
+
+/-- Executable form: for a sentence, `buildPL` at level 1 reports no error and the last set
+contains the completed item `$S : start $eof .` -/
+theorem buildPL_complete_la1 {g : Grammar} {w : List Nat} (hwf : g.WF)
+    (hsr : g.symsInRange = true) (hs : Sentence g w) :
+    (buildPL g 1 w).1 = none ∧
+    ∃ h : w.length + 1 < (buildPL g 1 w).2.length,
+      (⟨0, 2, 0⟩ : Item) ∈ (buildPL g 1 w).2[w.length + 1] := by
+  have hla := la1_of_der_axiom hwf hsr (der_axiom_of_sentence hs)
+  have hnone : (buildPL g 1 w).1 = none := (buildPL_none_iff g 1 w).mpr hla.2
+  have hlen := ((buildPL_spec g 1 w).2.1 hnone).1
+  rw [List.length_append, List.length_singleton] at hlen
+  refine ⟨hnone, by omega, ?_⟩
+  rw [buildPL_computes_EarleyF]
+  simpa using hla.1
+
+example : c01Grammar.WF ∧ c01Grammar.symsInRange = true ∧ accepts c01Grammar 1 [2, 3] = true :=
+  by decide
+
+/-- At lookahead level 1 the model accepts exactly the sentences. -/
+theorem accepts_iff_sentence_la1 {g : Grammar} {w : List Nat} (hwf : g.WF)
+    (hsr : g.symsInRange = true) (htok : ∀ a ∈ w, a ≠ g.eofT ∧ a ≠ g.errT) :
+    accepts g 1 w = true ↔ Sentence g w :=
+  ⟨accepts_sound hwf htok, accepts_complete_la1 hwf hsr⟩
+
+example : Sentence c01Grammar [2, 2, 3, 3] :=
+  (accepts_iff_sentence_la1 (g := c01Grammar) (by decide) (by decide) (by decide)).mp (by decide)
+example : ¬ Sentence c01Grammar [2, 3, 3] := fun h =>
+  absurd ((accepts_iff_sentence_la1 (g := c01Grammar) (by decide) (by decide) (by decide)).mpr h)
+    (by decide)
+
+/-- Levels 0 and 1 accept exactly the sentences. -/
+theorem accepts_iff_sentence {g : Grammar} {la : Nat} {w : List Nat} (hwf : g.WF)
+    (hsr : g.symsInRange = true) (htok : ∀ a ∈ w, a ≠ g.eofT ∧ a ≠ g.errT) (hla : la ≤ 1) :
+    accepts g la w = true ↔ Sentence g w := by
+  rcases Nat.le_one_iff_eq_zero_or_eq_one.mp hla with h | h
+  · subst h; exact accepts_iff_sentence_la0 hwf htok
+  · subst h; exact accepts_iff_sentence_la1 hwf hsr htok
+
+/-- The verdict does not depend on the lookahead level (0 or 1). -/
+theorem verdict_indep_of_la01 {g : Grammar} {w : List Nat} (hwf : g.WF)
+    (hsr : g.symsInRange = true) (htok : ∀ a ∈ w, a ≠ g.eofT ∧ a ≠ g.errT) :
+    accepts g 0 w = accepts g 1 w :=
+  Bool.eq_iff_iff.mpr
+    ((accepts_iff_sentence_la0 hwf htok).trans (accepts_iff_sentence_la1 hwf hsr htok).symm)
+
+example : c01Grammar.WF ∧ c01Grammar.symsInRange = true ∧
+    (∀ a ∈ [2, 3, 3], a ≠ c01Grammar.eofT ∧ a ≠ c01Grammar.errT) ∧
+    accepts c01Grammar 0 [2, 3, 3] = false ∧ accepts c01Grammar 1 [2, 3, 3] = false := by decide
+
+/-! ## the first error (valid-prefix property)
+
+If every nonterminal is productive (a decidable condition; `check_grammar` enforces it in
+strict mode), the token reported by `buildPL` at level 0 or 1 is the first token `k` such
+that `w'[0..k]` cannot be continued to a sentence followed by the end marker. -/
+
+theorem firstError_iff_viable {g : Grammar} {la : Nat} {w : List Nat} (hwf : g.WF)
+    (hsr : g.symsInRange = true) (hprod : ∀ A, A < g.nN → A ∈ g.productive)
+    (htok : ∀ a ∈ w, a ≠ g.eofT ∧ a ≠ g.errT) (hla : la ≤ 1) (k : Nat) :
+    (buildPL g la w).1 = some k ↔
+      k < (w ++ [g.eofT]).length ∧
+      (¬ ∃ v, Der g [Sym.n g.startN, Sym.t g.eofT] ((w ++ [g.eofT]).take (k + 1) ++ v)) ∧
+      ∀ m, m < k →
+        ∃ v, Der g [Sym.n g.startN, Sym.t g.eofT] ((w ++ [g.eofT]).take (m + 1) ++ v) := by
+  have hiff := hasTransF_iff_viable hwf hsr hprod la hla (getElem?_zero_ne_err hwf htok)
+  rw [buildPL_some_iff]
+  constructor
+  · rintro ⟨hk, hn, hall⟩
+    exact ⟨hk, fun hv => hn ((hiff k).mpr ⟨hk, hv⟩), fun m hm => ((hiff m).mp (hall m hm)).2⟩
+  · rintro ⟨hk, hn, hall⟩
+    exact ⟨hk, fun hT => hn ((hiff k).mp hT).2,
+      fun m hm => (hiff m).mpr ⟨Nat.lt_trans hm hk, hall m hm⟩⟩
+
+/-- Levels 0 and 1 report the same first error (or none). -/
+theorem firstError_indep_of_la01 {g : Grammar} {w : List Nat} (hwf : g.WF)
+    (hsr : g.symsInRange = true) (hprod : ∀ A, A < g.nN → A ∈ g.productive)
+    (htok : ∀ a ∈ w, a ≠ g.eofT ∧ a ≠ g.errT) :
+    (buildPL g 1 w).1 = (buildPL g 0 w).1 := by
+  apply Option.ext
+  intro k
+  rw [firstError_iff_viable hwf hsr hprod htok (Nat.le_refl 1) k,
+    firstError_iff_viable hwf hsr hprod htok (Nat.zero_le 1) k]
+
+example : c01Grammar.WF ∧ c01Grammar.symsInRange = true ∧
+    (∀ A, A < c01Grammar.nN → A ∈ c01Grammar.productive) ∧
+    (∀ a ∈ [2, 3, 3], a ≠ c01Grammar.eofT ∧ a ≠ c01Grammar.errT) ∧
+    (buildPL c01Grammar 1 [2, 3, 3]).1 = some 2 ∧ (buildPL c01Grammar 0 [2, 3, 3]).1 = some 2 := by
+  decide
 
 end Yaep
